@@ -366,10 +366,10 @@ class ASTNode(DataClassSerializeMixin):
     def detach(self) -> None:
         """Removes this node and and the whole tree rooted with this node from
         the registry."""
-        NODE_REGISTRY.pop(self.id, None)
+        self.detach_self()
 
         for ni in self.dfs():
-            NODE_REGISTRY.pop(ni.node.id, None)
+            ni.node.detach_self()
 
     def detach_self(self) -> bool:
         """Removes this node from the registry.
@@ -377,7 +377,13 @@ class ASTNode(DataClassSerializeMixin):
         Returns:
             bool: True if the node was removed, False if it was not in the registry
         """
-        return NODE_REGISTRY.pop(self.id, None) is not None
+        # Another node may have been registered under the same id
+        # after this one was detached: never evict it.
+        if NODE_REGISTRY.get(self.id) is not self:
+            return False
+
+        del NODE_REGISTRY[self.id]
+        return True
 
     def replace(self: ASTNodeType, **kwargs: Any) -> ASTNodeType:
         """Replaces this node in the registry with a new one with the given
@@ -401,7 +407,7 @@ class ASTNode(DataClassSerializeMixin):
         Returns:
             ASTNodeType: The new node
         """
-        ori_n = NODE_REGISTRY.pop(self.id, None)
+        ori_n = self if self.detach_self() else None
 
         try:
             new_node = replace(self, **kwargs)
